@@ -224,6 +224,16 @@ def rule_try_cleanup(ck):
         if n.id == wpn.id:
             return (a, b, BOTH)
         test_ = expand_locals(fi, n.ast, keep={rp, pidp}) if n.kind == "test" else None
+        if n.kind == "test" and kind in ("true", "false") and k == frozenset(["nochild"]) and rp in q.names_in(test_):
+            # waitpid raised: the result variable still holds what it was initialised with before the call
+            priors = [st_.value for st_ in own_nodes(fi.node) if isinstance(st_, ast.Assign) and len(st_.targets) == 1 and q.dotted(st_.targets[0]) == rp and isinstance(st_.value, ast.Constant)]
+            if len(priors) != 1:
+                raise AnalysisError("_try_cleanup_process tests %s after waitpid raised, but its value on that path is not a single constant initialiser" % rp)
+            try:
+                truth = bool(q.fold(test_, {rp: priors[0].value, pidp: 4711}))
+            except q.NotFoldable as e:
+                raise AnalysisError("test %s on the waitpid result cannot be evaluated (%s)" % (q.unparse(test_), e))
+            return v if truth == (kind == "true") else None
         if n.kind == "test" and kind in ("true", "false") and rp in q.names_in(test_) and k is not None and k <= BOTH:
             try:
                 keep = frozenset(c for c in k if bool(q.fold(test_, ENV[c])) == (kind == "true"))
